@@ -11,7 +11,9 @@ import (
 
 	"github.com/graphql-go/graphql"
 	"github.com/graphql-go/graphql/language/ast"
+	"github.com/graphql-go/graphql/language/parser"
 	"github.com/graphql-go/graphql/language/printer"
+	"github.com/graphql-go/graphql/language/source"
 	"pgregory.net/rapid"
 
 	"verif/gen"
@@ -25,6 +27,8 @@ type RawCase struct {
 	Text   string `json:"text"`
 	OpName string `json:"opName,omitempty"`
 	Vars   string `json:"vars,omitempty"` // JSON text of the variables map ("" = nil map)
+	// ParseOpts: the AST-level entry points are also fed the text parsed with parser.ParseOptions (bit 0: NoLocation, bit 1: NoSource)
+	ParseOpts int `json:"parseOpts,omitempty"`
 }
 
 // guarded runs f with a watchdog proportional to the input size; it reports a panic or a hang.
@@ -141,6 +145,53 @@ func c09Oracle(c *RawCase) (msg string, class string) {
 			if m := guarded(fmt.Sprintf("ValidateDocument(rule #%d alone)", i), size, func() {
 				graphql.ValidateDocument(&b.Schema, doc, []graphql.ValidationRuleFn{rule})
 			}); m != "" {
+				return m, class
+			}
+		}
+		// the same text parsed with the parser's options (no locations, no source): the AST-level entry points again
+		if c.ParseOpts != 0 {
+			opts := parser.ParseOptions{NoLocation: c.ParseOpts&1 != 0, NoSource: c.ParseOpts&2 != 0}
+			var doc2 *ast.Document
+			var perr2 error
+			tag := fmt.Sprintf(" (document parsed with %+v)", opts)
+			if m := guarded("parser.Parse"+tag, size, func() {
+				doc2, perr2 = parser.Parse(parser.ParseParams{Source: &source.Source{Body: []byte(c.Text), Name: "GraphQL request"}, Options: opts})
+			}); m != "" {
+				return m, class
+			}
+			if perr2 != nil {
+				return "the text parses with default options but not" + tag + ": " + perr2.Error(), class
+			}
+			if m := guarded("printer.Print"+tag, size, func() { _ = printer.Print(doc2) }); m != "" {
+				return m, class
+			}
+			var vr2 graphql.ValidationResult
+			if m := guarded("ValidateDocument"+tag, size, func() { vr2 = graphql.ValidateDocument(&b.Schema, doc2, nil) }); m != "" {
+				return m, class
+			}
+			if vr2.IsValid != vr.IsValid {
+				return fmt.Sprintf("ValidateDocument%s: valid=%v, but valid=%v for the same text parsed with default options", tag, vr2.IsValid, vr.IsValid), class
+			}
+			var res2 *graphql.Result
+			if m := guarded("PlanQuery+ExecutePlan"+tag, size, func() {
+				res2 = nil
+				if plan, err := graphql.PlanQuery(&b.Schema, doc2, c.OpName); err == nil {
+					res2 = graphql.ExecutePlan(plan, graphql.ExecuteParams{Schema: b.Schema, OperationName: c.OpName, Args: vars, Context: ctx})
+				}
+			}); m != "" {
+				return m, class
+			}
+			if res2 != nil {
+				if m := checkResult("ExecutePlan"+tag, res2, false); m != "" {
+					return m, class
+				}
+			}
+			if m := guarded("Execute"+tag, size, func() {
+				res2 = graphql.Execute(graphql.ExecuteParams{Schema: b.Schema, AST: doc2, OperationName: c.OpName, Args: vars, Context: ctx})
+			}); m != "" {
+				return m, class
+			}
+			if m := checkResult("Execute"+tag, res2, false); m != "" {
 				return m, class
 			}
 		}
@@ -264,7 +315,7 @@ func TestC09_Gen(t *testing.T) {
 		return
 	}
 	rapid.Check(t, func(rt *rapid.T) {
-		c := &RawCase{}
+		c := &RawCase{ParseOpts: []int{0, 0, 1, 2, 3}[gen.Uniform(rt, 5, "parseOpts")]}
 		mode := gen.Uniform(rt, 12, "mode")
 		switch {
 		case mode >= 10: // valid documents whose fragments spread one another, at a size where exponential work does not return
@@ -377,8 +428,8 @@ func TestC09_Corpus(t *testing.T) {
 		}
 	}
 	for _, s := range texts {
-		for _, v := range []string{"", `{"v":1}`, `{"v":{"b":"x"}}`} {
-			c := &RawCase{Text: s, Vars: v}
+		for vi, v := range []string{"", `{"v":1}`, `{"v":{"b":"x"}}`} {
+			c := &RawCase{Text: s, Vars: v, ParseOpts: vi + 1}
 			markCurrent("C09", "corpus", c)
 			msg, class := c09Oracle(c)
 			c09Record(c, class)
@@ -402,7 +453,7 @@ func FuzzC09(f *testing.F) {
 		if len(text) > 1<<13 || len(vars) > 1<<10 {
 			return
 		}
-		c := &RawCase{Text: text, OpName: op, Vars: vars}
+		c := &RawCase{Text: text, OpName: op, Vars: vars, ParseOpts: len(text) % 4}
 		msg, class := c09Oracle(c)
 		c09Record(c, class)
 		if msg != "" {
